@@ -26,13 +26,13 @@ static void any_links (void) {
 	}
 }
 
-void h_dll_init (void) { nsync_dll_element_ *e = pick (0); any_links (); nsync_dll_init_ (e, (void *) (uintptr_t) vp_nondet_u64 ()); }
-void h_dll_is_empty (void) { nsync_dll_list_ l = pick (1); any_links (); (void) nsync_dll_is_empty_ (l); }
-void h_dll_remove (void) { nsync_dll_list_ l; nsync_dll_element_ *e; any_links (); l = pick (1); e = pick (1); (void) nsync_dll_remove_ (l, e); }
-void h_dll_splice (void) { nsync_dll_element_ *p, *n; any_links (); p = pick (1); n = pick (1); nsync_dll_splice_after_ (p, n); }
-void h_dll_make_first (void) { nsync_dll_list_ l; nsync_dll_element_ *e; any_links (); l = pick (1); e = pick (1); (void) nsync_dll_make_first_in_list_ (l, e); }
-void h_dll_make_last (void) { nsync_dll_list_ l; nsync_dll_element_ *e; any_links (); l = pick (1); e = pick (1); (void) nsync_dll_make_last_in_list_ (l, e); }
-void h_dll_first (void) { nsync_dll_list_ l; any_links (); l = pick (1); (void) nsync_dll_first_ (l); }
-void h_dll_last (void) { nsync_dll_list_ l; any_links (); l = pick (1); (void) nsync_dll_last_ (l); }
-void h_dll_next (void) { nsync_dll_list_ l; nsync_dll_element_ *e; any_links (); l = pick (1); e = pick (1); (void) nsync_dll_next_ (l, e); }
-void h_dll_prev (void) { nsync_dll_list_ l; nsync_dll_element_ *e; any_links (); l = pick (1); e = pick (1); (void) nsync_dll_prev_ (l, e); }
+void h_dll_init (void) { nsync_dll_element_ *e = pick (0); any_links (); nsync_dll_init_ (e, (void *) (uintptr_t) vp_nondet_u64 ()); VP_CANARY (); }
+void h_dll_is_empty (void) { nsync_dll_list_ l = pick (1); any_links (); (void) nsync_dll_is_empty_ (l); VP_CANARY (); }
+void h_dll_remove (void) { nsync_dll_list_ l; nsync_dll_element_ *e; any_links (); l = pick (1); e = pick (1); (void) nsync_dll_remove_ (l, e); VP_CANARY (); }
+void h_dll_splice (void) { nsync_dll_element_ *p, *n; any_links (); p = pick (1); n = pick (1); nsync_dll_splice_after_ (p, n); VP_CANARY (); }
+void h_dll_make_first (void) { nsync_dll_list_ l; nsync_dll_element_ *e; any_links (); l = pick (1); e = pick (1); (void) nsync_dll_make_first_in_list_ (l, e); VP_CANARY (); }
+void h_dll_make_last (void) { nsync_dll_list_ l; nsync_dll_element_ *e; any_links (); l = pick (1); e = pick (1); (void) nsync_dll_make_last_in_list_ (l, e); VP_CANARY (); }
+void h_dll_first (void) { nsync_dll_list_ l; any_links (); l = pick (1); (void) nsync_dll_first_ (l); VP_CANARY (); }
+void h_dll_last (void) { nsync_dll_list_ l; any_links (); l = pick (1); (void) nsync_dll_last_ (l); VP_CANARY (); }
+void h_dll_next (void) { nsync_dll_list_ l; nsync_dll_element_ *e; any_links (); l = pick (1); e = pick (1); (void) nsync_dll_next_ (l, e); VP_CANARY (); }
+void h_dll_prev (void) { nsync_dll_list_ l; nsync_dll_element_ *e; any_links (); l = pick (1); e = pick (1); (void) nsync_dll_prev_ (l, e); VP_CANARY (); }
